@@ -466,6 +466,7 @@ def explore(hfn, params, modules, tier="quick", max_paths=2000, slow_s=60, valid
         summary["paths"] += 1
         summary["unknown_forks"] += run.unknown_forks
         summary["fork_queries"] += run.fork_queries
+        summary.setdefault("fork_hashes", set()).update(run.fork_hashes)
         summary["stubs"] |= run.stubs
         summary["reached"] += g.reached
         summary["vars"] = max(summary["vars"], len(g.declared))
@@ -572,6 +573,7 @@ def explore(hfn, params, modules, tier="quick", max_paths=2000, slow_s=60, valid
         else:
             break
     summary["stubs"] = sorted(summary["stubs"])
+    summary["fork_hashes"] = sorted(summary.get("fork_hashes", ()))
     summary["wall_s"] = round(time.time() - t_start, 3)
     return summary
 
